@@ -196,6 +196,8 @@ PLANS["C13"] = {
     "bounds": {"quick": ["sign rule: complete", "number recogniser: all ASCII strings of <= 4 bytes"], "thorough": ["sign rule: complete", "number recogniser: all ASCII strings of <= 6 bytes"]},
     "explanation": "Partial: the sign rule (is_operator_binary) over its complete finite domain and the number recogniser (is_numeric_text) for all short ASCII strings.",
 }
+PLANS["C13"]["native_probes"] = {"quick": [("u5::numeric_text_utf8", 200000)], "thorough": [("u5::numeric_text_utf8", 2000000)]}
+PLANS["C13"]["bounds"]["quick"].append("sampled native probe (not a proof): 200000 strings of up to 12 characters incl. multi-byte ones")
 PLANS["C09"] = {
     "level": "proof",
     "kani": {"quick": ["u5::partial_index"], "thorough": ["u5::partial_index"]},
@@ -286,3 +288,8 @@ KANI_TARGETS = {
     "C17": [("src/value.rs", r"^    fn make<'a>\(\) -> Vec<Operator<'a, Val<I, F>>>", "every entry, as extracted text: vgen::t_* / ta_* / tg_* (one per entry)")],
     "C19": [("src/operators.rs", r"^    fn make<'a>\(\) -> Vec<Operator<'a, T>>", "every entry, as extracted text: u8_float::float_table_f64 / _f32; thorough: the run-time table")],
 }
+
+PLANS["C04"]["native_probes"] = {"quick": [("c04::var_lookup_probe", 200000)], "thorough": [("c04::var_lookup_probe", 2000000)]}
+PLANS["C04"]["bounds"]["quick"].append("sampled native probe (not a proof): find_parsed_vars / find_var_index on 200000 random token lists over 12 tricky names")
+PLANS["C04"]["not_covered"] = [x for x in PLANS["C04"]["not_covered"] if not x.startswith("find_parsed_vars")] + ["find_parsed_vars / find_var_index are only sampled natively (CBMC needs > 5 GB on one concrete token shape)"]
+
